@@ -3,8 +3,8 @@
    The JSON header round trip (json_b64encode / json_b64decode) is stated in
    props/C19 only through the Gallina JSON model of proofs/JsonProofs.v when
    that file is part of the build (see C19_json below). *)
-From Model Require Import Base B64 IntCodec.
-From Proofs Require Import B64Proofs IntCodecProofs.
+From Model Require Import Base B64 IntCodec PyVal Json.
+From Proofs Require Import B64Proofs IntCodecProofs JsonProofs.
 Open Scope N_scope.
 
 (* decoding an encoding returns the original octets, for every octet string *)
@@ -101,7 +101,37 @@ Example c19_fixed_instance :
   encode_int 1 521 = Ok (I2OSP 1 66) /\ length (I2OSP 1 66) = 66%nat.
 Proof. vm_compute. split; reflexivity. Qed.
 
+(* JSON header encoding followed by decoding returns an equal object: for every
+   float-free JSON value [h] (strings of Unicode scalar values, unique dict
+   keys, arbitrary nesting, all escape classes, unbounded integers) the Gallina
+   model of json.dumps(ensure_ascii=True, separators=(",",":")) / json.loads
+   satisfies the round trip, through base64url.  Floats stay with CPython's
+   repr/float contract (checked on the implementation only). *)
+Theorem c19_json_loads_dumps : forall v, json_ok v = true -> json_loads (json_print v) = POk v.
+Proof. exact json_loads_print. Qed.
+
+Theorem c19_json_rt : forall h, json_ok h = true -> json_b64decode (json_b64encode h) = Ok (POk h).
+Proof. exact json_b64_roundtrip. Qed.
+
+Theorem c19_json_segment_alphabet : forall h, forallb in_alphabet (json_b64encode h) = true.
+Proof. exact json_b64encode_alphabet. Qed.
+
+Example c19_json_instance :
+  json_ok (PDict [(asc "alg", PStr (asc "HS256")); (asc "crit", PList [PStr [233; 128512; 34; 10]]);
+                  (asc "n", PInt (-12)%Z); (asc "o", PDict [(asc "", PNone); (asc "b", PBool true)])]) = true.
+Proof. exact json_ok_nontrivial. Qed.
+
+(* recorded: a high surrogate followed by a low surrogate as two separate code
+   points does not survive (CPython's json behaves the same); such strings are
+   not Unicode text and are excluded by json_ok *)
+Example c19_json_surrogates_recorded :
+  json_loads (json_print (PStr [55357; 56832])) = POk (PStr [128512]).
+Proof. exact json_surrogate_pair_not_roundtrip. Qed.
+
 Print Assumptions c19_rt.
+Print Assumptions c19_json_loads_dumps.
+Print Assumptions c19_json_rt.
+Print Assumptions c19_json_segment_alphabet.
 Print Assumptions c19_enc_injective.
 Print Assumptions c19_canonical_inj.
 Print Assumptions c19_alphabet.
